@@ -64,14 +64,54 @@ def build_tools():
     return _built
 
 
-def hook(requests, timeout=600):
-    """Send JSON requests to verifcmd, one per line; return list of responses."""
+def hook(requests, timeout=600, per_request=8.0):
+    """Send JSON requests to verifcmd, one per line; return list of responses.  A request that gets no
+    answer within per_request seconds (the real code loops or exhausts memory) is answered
+    {"timeout": true} and the command is restarted for the remaining requests."""
+    import select, threading
     t = build_tools()
-    data = "\n".join(json.dumps(r) for r in requests) + "\n"
-    p = sh([t["verifcmd"]], input=data, timeout=timeout)
-    out = [json.loads(l) for l in p.stdout.splitlines() if l.strip()]
-    if len(out) != len(requests):
-        raise RuntimeError("verifcmd answered %d of %d requests; stderr: %s" % (len(out), len(requests), p.stderr[-3000:]))
+    out = []
+    start = 0
+    while start < len(requests):
+        p = subprocess.Popen([t["verifcmd"]], stdin=subprocess.PIPE, stdout=subprocess.PIPE, stderr=subprocess.DEVNULL)
+        batch = requests[start:]
+
+        def feed(proc=p, reqs=batch):
+            try:
+                for r in reqs:
+                    proc.stdin.write((json.dumps(r) + "\n").encode())
+                proc.stdin.close()
+            except (BrokenPipeError, ValueError, OSError):
+                pass
+        th = threading.Thread(target=feed, daemon=True)
+        th.start()
+        buf = b""
+        got = 0
+        dead = False
+        fd = p.stdout.fileno()
+        while got < len(batch):
+            r, _, _ = select.select([fd], [], [], per_request)
+            if not r:
+                dead = True
+                break
+            chunk = os.read(fd, 1 << 20)
+            if not chunk:
+                dead = True
+                break
+            buf += chunk
+            while b"\n" in buf:
+                line, buf = buf.split(b"\n", 1)
+                if line.strip():
+                    out.append(json.loads(line)); got += 1
+        try:
+            p.kill()
+        except OSError:
+            pass
+        p.wait()
+        if dead and got < len(batch):
+            out.append({"timeout": True, "panic": "no answer within %.0fs (non-termination or crash of the analysis)" % per_request})
+            got += 1
+        start += got
     return out
 
 
